@@ -137,6 +137,8 @@ class Path:
     self.qual = qual
     self.props = props
     self.new_alternatives = []
+    self.facts = {}
+    self.fact_refs = []
     self.trace = []          # ghost events (calls to opaque callables, ...)
     self.ghost = {}
     self.notes = []
@@ -153,12 +155,49 @@ class Path:
       return
     self.hyps.append(e)
 
+  def _known(self, e):
+    """Syntactic lookup of e among the facts decided so far: True/False/None."""
+    i = e.get_id()
+    if i in self.facts:
+      return self.facts[i]
+    if z3.is_not(e):
+      k = self._known(e.arg(0))
+      return None if k is None else (not k)
+    if z3.is_and(e):
+      ks = [self._known(c) for c in e.children()]
+      if all(k is True for k in ks):
+        return True
+      if any(k is False for k in ks):
+        return False
+    if z3.is_or(e):
+      ks = [self._known(c) for c in e.children()]
+      if any(k is True for k in ks):
+        return True
+      if all(k is False for k in ks):
+        return False
+    return None
+
+  def _learn(self, e, val):
+    self.facts[e.get_id()] = val
+    self.fact_refs.append(e)
+    if val and z3.is_and(e):
+      for c in e.children():
+        self._learn(c, True)
+    if (not val) and z3.is_or(e):
+      for c in e.children():
+        self._learn(c, False)
+    if z3.is_not(e):
+      self._learn(e.arg(0), not val)
+
   def decide(self, cond, label=''):
     cond = z3.simplify(cond)
     if z3.is_true(cond):
       return True
     if z3.is_false(cond):
       return False
+    k = self._known(cond)
+    if k is not None:
+      return k
     if self.pos < len(self.decisions):
       choice = self.decisions[self.pos]
     else:
@@ -167,6 +206,7 @@ class Path:
     self.pos += 1
     self.taken.append(choice)
     self.hyps.append(cond if choice else z3.Not(cond))
+    self._learn(cond, choice)
     return choice
 
   def choose(self, n, label=''):
@@ -534,7 +574,12 @@ class Executor:
     for pred, why in self.contract.abstract_stmts:
       if self.depth == 0 and pred(s):
         # statement-level abstraction: the variables it assigns become arbitrary
-        self.havoc_locals(extract.assigned_names([s]), 'abs')
+        names = extract.assigned_names([s])
+        for nm in names:
+          lk = self.contract.local_kinds.get(nm)
+          if lk is not None and nm not in self.frame.env:
+            self.frame.env[nm] = working_copy(self.fresh(lk, 'abs_' + nm))
+        self.havoc_locals(names, 'abs')
         return
     m = getattr(self, 'st_' + type(s).__name__, None)
     if m is None:
@@ -829,6 +874,8 @@ class Executor:
     return self.as_iter(v, node)
 
   def as_iter(self, v, node):
+    if isinstance(v, VPy) and v.what in ('emptylist', 'emptydict', 'emptyset'):
+      return []
     if isinstance(v, VTuple):
       return list(v.items)
     if isinstance(v, VList):
@@ -1187,6 +1234,11 @@ class Executor:
                       self.ev(node.right), node)
 
   def binop(self, op, a, b, node):
+    if isinstance(a, VOpt):
+      self.path.oblige(f'{self.contract.qual}/safety/operand_not_none#{node.lineno}',
+                       z3.Not(a.is_none))
+      self.path.assume(z3.Not(a.is_none))
+      a = a.inner
     if isinstance(b, VOpt):
       self.path.oblige(f'{self.contract.qual}/safety/operand_not_none#{node.lineno}',
                        z3.Not(b.is_none))
@@ -1581,6 +1633,9 @@ class Executor:
         e.origin = 'stmt' if self.depth == 0 else 'inlined:' + self.frame.qual
         return e
       if fn.what == 'recclass':
+        q = f'{self.world.RECORD_CLASSES[fn.payload][0]}::{fn.payload}'
+        if q in C.REGISTRY:      # the constructor has a contract of its own
+          return self.call_contract(C.REGISTRY[q], args, kwargs, node, None)
         return self.world.make_record(self, fn.payload, args, kwargs, node)
       if fn.what == 'opaque':
         return self.opaque_call(fn, args, kwargs, node)
@@ -1591,6 +1646,11 @@ class Executor:
         return self.call_contract(C.REGISTRY[qual], [obj] + list(args), kwargs, node, None)
       if fn.what == 'regex_match':
         a0 = args[0]
+        if isinstance(a0, VOpt):
+          self.path.oblige(f'{self.contract.qual}/safety/match_arg_not_none#{node.lineno}',
+                           z3.Not(a0.is_none))
+          self.path.assume(z3.Not(a0.is_none))
+          a0 = a0.inner
         if isinstance(a0, VObj):
           if self.contract.val_ops_may_raise:
             self.opaque_op_may_raise('re.match', node)
@@ -2016,6 +2076,8 @@ def _pure_bool(node):
   if isinstance(node, ast.BoolOp):
     return all(_pure_bool(v) for v in node.values)
   if isinstance(node, ast.Compare):
+    if any(isinstance(o, (ast.In, ast.NotIn)) for o in node.ops):
+      return False       # membership in a possibly-None container must stay guarded
     return all(isinstance(x, (ast.Name, ast.Constant)) or
                (isinstance(x, ast.Attribute) and isinstance(x.value, ast.Name)) or
                (isinstance(x, ast.Tuple) and all(isinstance(e, ast.Constant) for e in x.elts))
